@@ -4,7 +4,7 @@ from __future__ import annotations
 
 import ast
 
-from ..core import AnalysisError, Check, Scope, norm, strip_docstring, walk_no_nested
+from ..core import specialise_delegate, AnalysisError, Check, Scope, norm, strip_docstring, walk_no_nested
 from ..deps import DepInterp, DepSt
 from ..variants import Variant
 
@@ -41,7 +41,14 @@ class C10(Check):
     undecided = ["N*v = dx/dt numerically", "the arithmetic of pandas broadcasting in the per-segment/per-row division"]
     assumptions = ["Model.update_parameters returns the model (fluent) and invalidates its cache (C03)"]
 
+    def views(self, mod) -> dict:
+        """Methods of Simulation; a view that only delegates to a private helper is replaced by the helper specialised for that call."""
+        if getattr(self, "_views", None) is None:
+            self._views = {n: specialise_delegate(mod, f, CLS) for n, f in mod.methods(CLS).items()}
+        return self._views
+
     def run(self) -> None:
+        self._views = None
         mod = self.prog.module(MOD)
         self.v1(mod)
         self.v2(mod)
@@ -49,7 +56,7 @@ class C10(Check):
         self.v4(mod)
         self.v5(mod)
         self.v6(mod)
-        g = mod.methods(CLS).get("get_new_y0")
+        g = self.views(mod).get("get_new_y0")
         if g is None:
             raise AnalysisError("Simulation.get_new_y0 missing")
         t = norm(g.body[-1])
@@ -90,39 +97,121 @@ class C10(Check):
         self.windows(fn, q)
 
     def windows(self, fn, q) -> None:
-        """Per-row branch: symbolic execution of the window arithmetic for three segments."""
+        """Per-row branch: symbolic execution of the window arithmetic for three segments.
+
+        Recognised shapes: a `for seg in results` loop with running offsets, or a comprehension over
+        `zip(results, <lengths>, <accumulate(lengths)>)`; lists of lengths / cumulative sums are interpreted per position.
+        """
         import sympy
 
-        loops = [s for s in strip_docstring(fn.body) if isinstance(s, ast.For)]
-        if len(loops) != 1 or not isinstance(loops[0].target, ast.Name):
-            self.undecided_ob("V1", MOD, q, "row-windows", fn, "per-row loop not recognised")
-            return
-        loop = loops[0]
-        it = loop.target.id
-        env: dict[str, object] = {}
-        for s in strip_docstring(fn.body):
-            if s is loop:
-                break
-            if isinstance(s, ast.Assign) and isinstance(s.targets[0], ast.Name) and isinstance(s.value, ast.Constant) and isinstance(s.value.value, int):
-                env[s.targets[0].id] = sympy.Integer(s.value.value)
         L = sympy.symbols("l1 l2 l3", integer=True, positive=True)
+        SEG = object()
+        env: dict[str, object] = {}       # scalar name -> sympy expr | SEG
+        lists: dict[str, object] = {}     # list name -> (k -> sympy expr | SEG)
+
+        def lst(e):
+            """Interpret e as a per-segment list; returns k -> value, or None."""
+            if isinstance(e, ast.Name):
+                if e.id == "results":
+                    return lambda k: SEG
+                return lists.get(e.id)
+            if isinstance(e, ast.Call) and norm(e.func) in ("list", "tuple", "np.array", "np.asarray") and len(e.args) == 1:
+                return lst(e.args[0])
+            if isinstance(e, ast.Call) and norm(e.func).split(".")[-1] in ("accumulate", "cumsum") and len(e.args) == 1 and not e.keywords:
+                inner = lst(e.args[0])
+                if inner is None:
+                    return None
+                return lambda k: sum((inner(j) for j in range(k + 1)), sympy.Integer(0))
+            if isinstance(e, ast.ListComp) and len(e.generators) == 1 and not e.generators[0].ifs and isinstance(e.generators[0].target, ast.Name):
+                src = lst(e.generators[0].iter)
+                if src is None:
+                    return None
+                var = e.generators[0].target.id
+
+                def f(k, e=e, src=src, var=var):
+                    old = env.get(var)
+                    env[var] = src(k)
+                    try:
+                        return ev(e.elt, k)
+                    finally:
+                        if old is None:
+                            env.pop(var, None)
+                        else:
+                            env[var] = old
+                return f
+            # [0, *accumulate(x)]  /  [0] + list(accumulate(x)): exclusive prefix sums
+            if isinstance(e, ast.List) and len(e.elts) == 2 and isinstance(e.elts[0], ast.Constant) and e.elts[0].value == 0 and isinstance(e.elts[1], ast.Starred):
+                inner = lst(e.elts[1].value)
+                return None if inner is None else (lambda k: sympy.Integer(0) if k == 0 else inner(k - 1))
+            if isinstance(e, ast.BinOp) and isinstance(e.op, ast.Add) and norm(e.left) == "[0]":
+                inner = lst(e.right)
+                return None if inner is None else (lambda k: sympy.Integer(0) if k == 0 else inner(k - 1))
+            return None
 
         def ev(e, k):
             if isinstance(e, ast.Constant) and isinstance(e.value, int):
                 return sympy.Integer(e.value)
-            if isinstance(e, ast.Name) and e.id in env:
+            if isinstance(e, ast.Name) and e.id in env and env[e.id] is not SEG:
                 return env[e.id]
-            if isinstance(e, ast.Call) and norm(e.func) == "len" and norm(e.args[0]) == it:
+            if isinstance(e, ast.Call) and norm(e.func) == "len" and len(e.args) == 1 and isinstance(e.args[0], ast.Name) and env.get(e.args[0].id) is SEG:
+                return L[k]
+            if isinstance(e, ast.Subscript) and isinstance(e.value, ast.Attribute) and e.value.attr == "shape" and isinstance(e.value.value, ast.Name) \
+                    and env.get(e.value.value.id) is SEG and norm(e.slice) == "0":
                 return L[k]
             if isinstance(e, ast.BinOp) and isinstance(e.op, (ast.Add, ast.Sub, ast.Mult)):
                 a, b = ev(e.left, k), ev(e.right, k)
                 return a + b if isinstance(e.op, ast.Add) else a - b if isinstance(e.op, ast.Sub) else a * b
             raise AnalysisError(f"window arithmetic: `{norm(e)}` not interpretable")
 
+        def bind(target, it, k) -> bool:
+            """Bind the iteration target(s) for segment k; False if the iterable is not a per-segment sequence."""
+            if isinstance(it, ast.Call) and norm(it.func) == "zip" and isinstance(target, ast.Tuple) and len(target.elts) == len(it.args):
+                return all(bind(t, a, k) for t, a in zip(target.elts, it.args))
+            if isinstance(it, ast.Call) and norm(it.func) == "enumerate" and isinstance(target, ast.Tuple) and len(target.elts) == 2 and len(it.args) == 1:
+                env[norm(target.elts[0])] = sympy.Integer(k)
+                return bind(target.elts[1], it.args[0], k)
+            src = lst(it)
+            if src is None or not isinstance(target, ast.Name):
+                return False
+            env[target.id] = src(k)
+            return True
+
+        body = strip_docstring(fn.body)
+        loop = None
+        comp = None
+        for s in body:
+            if isinstance(s, ast.For):
+                loop = s
+                break
+            cs = [n for n in ast.walk(s) if isinstance(n, ast.ListComp) and any(isinstance(x, ast.Subscript) and isinstance(x.slice, ast.Slice) for x in ast.walk(n.elt))] \
+                if isinstance(s, (ast.Return, ast.Assign)) else []
+            if cs:
+                comp = cs[0]
+                loop = s
+                break
+            if isinstance(s, ast.Assign) and isinstance(s.targets[0], ast.Name):
+                if isinstance(s.value, ast.Constant) and isinstance(s.value.value, int):
+                    env[s.targets[0].id] = sympy.Integer(s.value.value)
+                else:
+                    l_ = lst(s.value)
+                    if l_ is not None:
+                        lists[s.targets[0].id] = l_
+        if loop is None:
+            self.undecided_ob("V1", MOD, q, "row-windows", fn, "per-row loop not recognised")
+            return
+
         windows = []
         try:
             for k in range(3):
-                for s in loop.body:
+                if comp is not None:
+                    if len(comp.generators) != 1 or comp.generators[0].ifs or not bind(comp.generators[0].target, comp.generators[0].iter, k):
+                        raise AnalysisError("per-row comprehension does not iterate the segments in a recognised way")
+                    stmts = [ast.Expr(value=comp.elt)]
+                else:
+                    if not bind(loop.target, loop.iter, k):
+                        raise AnalysisError("per-row loop does not iterate the segments in a recognised way")
+                    stmts = loop.body
+                for s in stmts:
                     # record slices used on the factor array in this statement (before its own assignment effect)
                     for n in ast.walk(s):
                         if isinstance(n, ast.Subscript) and isinstance(n.slice, ast.Slice) and n.slice.lower is not None and n.slice.upper is not None:
@@ -158,7 +247,7 @@ class C10(Check):
 
     # ------------------------------------------------------------------
     def v2(self, mod) -> None:
-        methods = mod.methods(CLS)
+        methods = self.views(mod)
         n = 0
         for name, fn in methods.items():
             if any(norm(d) == "overload" for d in fn.decorator_list):
@@ -230,7 +319,7 @@ class C10(Check):
 
     def v3(self, mod) -> None:
         for name in ("_adjust_data", "get_producers", "get_consumers"):
-            fn = mod.methods(CLS)[name]
+            fn = self.views(mod)[name]
             q = f"{CLS}.{name}"
             cs = [c for c in ast.walk(fn) if isinstance(c, ast.Call) and norm(c.func) == "pd.concat"]
             dl = [c for c in ast.walk(fn) if isinstance(c, ast.Call) and norm(c.func) == "self._adjust_data" and name != "_adjust_data"]
@@ -249,7 +338,7 @@ class C10(Check):
 
     def v6(self, mod) -> None:
         NORMALISERS = ("self._adjust_data", "_normalise_split_results", "self.get_fluxes", "self.get_variables", "self.get_args", "self.get_right_hand_side")
-        for name, fn in mod.methods(CLS).items():
+        for name, fn in self.views(mod).items():
             if any(norm(d) == "overload" for d in fn.decorator_list):
                 continue
             if "normalise" not in [a.arg for a in fn.args.args + fn.args.kwonlyargs]:
@@ -296,33 +385,72 @@ class C10(Check):
                               witness="get_producers('x', normalise=2.0) returns fluxes divided by 4 (or undivided)")
 
     def v4(self, mod) -> None:
-        for name, op, sign in (("get_producers", ast.Gt, ""), ("get_consumers", ast.Lt, "-")):
-            fn = mod.methods(CLS)[name]
+        import sympy
+
+        def to_sym(e, syms):
+            if isinstance(e, ast.Constant) and isinstance(e.value, (int, float)) and not isinstance(e.value, bool):
+                return sympy.nsimplify(e.value)
+            if isinstance(e, ast.UnaryOp) and isinstance(e.op, ast.USub):
+                return -to_sym(e.operand, syms)
+            if isinstance(e, ast.BinOp) and isinstance(e.op, (ast.Add, ast.Sub, ast.Mult)):
+                x, y = to_sym(e.left, syms), to_sym(e.right, syms)
+                return x + y if isinstance(e.op, ast.Add) else x - y if isinstance(e.op, ast.Sub) else x * y
+            if norm(e) in syms:
+                return syms[norm(e)]
+            raise AnalysisError(f"`{norm(e)}` not interpretable")
+
+        for name, positive in (("get_producers", True), ("get_consumers", False)):
+            orig = self.views(mod)[name]  # already specialised
+            fn = specialise_delegate(mod, orig, CLS)
             q = f"{CLS}.{name}"
             sel = [c for c in ast.walk(fn) if isinstance(c, ast.ListComp) and c.generators[0].ifs
-                   and "get_stoichiometries_of_variable" in norm(c.generators[0].iter)]
+                   and "get_stoichiometries_of_variable" in norm(c.generators[0].iter) and isinstance(c.generators[0].target, ast.Tuple)]
             if not sel:
                 raise AnalysisError(f"{q}: name selection not recognised")
             t = sel[0].generators[0].ifs[0]
             v = sel[0].generators[0].target.elts[1].id
-            ok = isinstance(t, ast.Compare) and norm(t.left) == v and isinstance(t.ops[0], op) and norm(t.comparators[0]) == "0"
-            ok = ok or (isinstance(t, ast.Compare) and norm(t.comparators[0]) == v and norm(t.left) == "0"
-                        and isinstance(t.ops[0], ast.Lt if op is ast.Gt else ast.Gt))
+            x = sympy.Symbol("x", real=True)
+            ok = False
+            try:
+                if isinstance(t, ast.Compare) and len(t.ops) == 1 and type(t.ops[0]) in (ast.Gt, ast.Lt, ast.GtE, ast.LtE, ast.NotEq, ast.Eq) and len(sel[0].generators[0].ifs) == 1:
+                    lhs, rhs = to_sym(t.left, {v: x}), to_sym(t.comparators[0], {v: x})
+                    rel = {ast.Gt: sympy.Gt, ast.Lt: sympy.Lt, ast.GtE: sympy.Ge, ast.LtE: sympy.Le, ast.NotEq: sympy.Ne, ast.Eq: sympy.Eq}[type(t.ops[0])](lhs, rhs)
+                    got = sympy.solveset(rel, x, sympy.S.Reals) if rel not in (sympy.true, sympy.false) else (sympy.S.Reals if rel == sympy.true else sympy.S.EmptySet)
+                    want = sympy.Interval.open(0, sympy.oo) if positive else sympy.Interval.open(-sympy.oo, 0)
+                    ok = got == want
+            except AnalysisError:
+                ok = False
             if ok:
-                self.holds("V4", MOD, q, "sign-selection", t, f"selects coefficients {'> 0' if op is ast.Gt else '< 0'}")
+                self.holds("V4", MOD, q, "sign-selection", t, f"selects coefficients {'> 0' if positive else '< 0'}")
             else:
-                self.violated("V4", MOD, q, "sign-selection", t, f"`{norm(t)}` does not select exactly the {'positive' if op is ast.Gt else 'negative'} coefficients",
+                self.violated("V4", MOD, q, "sign-selection", t, f"`{norm(t)}` does not select exactly the {'positive' if positive else 'negative'} coefficients",
                               witness="a reaction with coefficient 0 or of the other sign is listed")
             sc_ = [a for a in ast.walk(fn) if isinstance(a, ast.AugAssign) and isinstance(a.op, ast.Mult)]
-            want = f"{sign}stoichs[k]"
-            if sc_ and norm(sc_[0].value) == want:
-                self.holds("V4", MOD, q, "scaling", sc_[0], f"scaled by {want}")
+            ok = False
+            got_txt = norm(sc_[0].value) if sc_ else "?"
+            if sc_:
+                # the factor is the segment's own coefficient of the scaled column, with the sign of the view
+                tgt = sc_[0].target
+                col = norm(tgt.slice.elts[1]) if isinstance(tgt, ast.Subscript) and isinstance(tgt.slice, ast.Tuple) and len(tgt.slice.elts) == 2 else None
+                subs = [n for n in ast.walk(sc_[0].value) if isinstance(n, ast.Subscript)]
+                if col is not None and len(subs) == 1 and norm(subs[0].slice) == col:
+                    src = norm(subs[0].value)
+                    defs = [a for a in ast.walk(fn) if isinstance(a, ast.Assign) and norm(a.targets[0]) == src]
+                    if defs and "get_stoichiometries_of_variable" in norm(defs[-1].value):
+                        s_ = sympy.Symbol("s", real=True)
+                        try:
+                            ok = sympy.simplify(to_sym(sc_[0].value, {norm(subs[0]): s_}) - (s_ if positive else -s_)) == 0
+                        except AnalysisError:
+                            ok = False
+            want = f"{'' if positive else '-'}<coefficient of the column>"
+            if ok:
+                self.holds("V4", MOD, q, "scaling", sc_[0], f"scaled by {got_txt}")
             else:
-                self.violated("V4", MOD, q, "scaling", sc_[0] if sc_ else fn, f"scaled view multiplies by `{norm(sc_[0].value) if sc_ else '?'}` instead of `{want}`",
+                self.violated("V4", MOD, q, "scaling", sc_[0] if sc_ else orig, f"scaled view multiplies by `{got_txt}` instead of `{want}`",
                               witness="scaled producers/consumers have the wrong sign or magnitude")
 
     def v5(self, mod) -> None:
-        methods = mod.methods(CLS)
+        methods = self.views(mod)
         filler = methods.get("_compute_args")
         if filler is None:
             raise AnalysisError("Simulation._compute_args missing")
